@@ -9,7 +9,7 @@ from vlib import drive
 
 PROPERTY = "C14"
 RULE = ("case: strategy in {dimension-wise (versions 6/2/3/7/8, rebalancing, boundary), extend-split (versions 0-2)}, d 2-3, a built-in "
-        "(dill-picklable) integrand with drawn parameters, the library's own error estimators, final limit K2. The uninterrupted run "
+        "(dill-picklable) integrand with drawn parameters, the library's own error estimators (dimension-wise also a stateless scripted estimator that refines towards one target point: strongly one-sided trees, rebalancing rotations), final limit K2. The uninterrupted run "
         "(final limits: max_evaluations=K2 and either no tolerance or an error value observed in the tol=-1 history) is recorded; then EVERY evaluation index k of that run (all of them in the thorough tier and whenever "
         "the history has <= 8 evaluations, otherwise a drawn subset of 8) is used as interruption point: a fresh run with "
         "max_evaluations = n_k - 1 (or with the weaker tolerance err_k) stops there and is continued to K2 in a drawn mode: continue directly / save_to_file -> "
@@ -40,7 +40,31 @@ def make_function(case):
         return F.GenzGaussian(co, [float(x) for x in rng.uniform(0.2, 0.8, dim)])
     if name == "c0":
         return F.GenzC0(co, [float(x) for x in rng.uniform(0.2, 0.8, dim)])
+    if name == "discontinuous":
+        # jump inside the box: one-sided, strongly local refinement (and rebalancing rotations)
+        b = case["b"]
+        return F.GenzDiscontinious(co, [float(b[d] * x) for d, x in enumerate(rng.uniform(0.15, 0.85, dim))])
     raise ValueError(name)
+
+
+def make_target_err(fracs, bg):
+    """stateless scripted estimator: an interval containing the target point gets error 1, all others a small value that
+    depends on the interval only - the same object always gets the same error, also after a re-evaluation on resume"""
+    from sparseSpACE.ErrorCalculator import ErrorCalculator
+
+    class TargetErr(ErrorCalculator):
+        def __init__(self):
+            super().__init__(log_level=drive.Q, print_level=drive.Q)
+            self.fracs = list(fracs)
+            self.bg = float(bg)
+
+        def calc_error(self, obj, norm, volume_weights=None):
+            d = obj.this_dim
+            x = obj.a + (obj.b - obj.a) * self.fracs[d]
+            if obj.start <= x < obj.end:
+                return 1.0
+            return self.bg * (obj.end - obj.start) / (obj.b - obj.a)
+    return TargetErr()
 
 
 def build(case):
@@ -58,6 +82,9 @@ def build(case):
         sa = SpatiallyAdaptiveSingleDimensions2(a, b, operation=op, version=case["version"], rebalancing=case["rebalancing"],
                                                 print_level=drive.Q, log_level=drive.Q)
         err = ErrorCalculatorSingleDimVolumeGuided()
+        if case.get("estimator") == "target":
+            r = np.random.default_rng(case["fseed"] + 3)
+            err = make_target_err([float(x) for x in r.uniform(0.03, 0.97, dim)], case.get("bg", 0.0))
     else:
         from sparseSpACE.spatiallyAdaptiveExtendSplit import SpatiallyAdaptiveExtendScheme
         from sparseSpACE.Grid import TrapezoidalGrid
@@ -205,7 +232,7 @@ def run(case):
                 nt += 1
             out.cls("mode=" + mode, "leg=" + leg, "final-tol=%s" % ("none" if tol_final == -1 else "observed-error"))
     out.nontrivial = nt >= 1
-    out.cls("kind=" + kind, "version=%d" % case["version"], "function=" + case["function"])
+    out.cls("kind=" + kind, "version=%d" % case["version"], "function=" + case["function"], "estimator=" + case.get("estimator", "library"))
     out.info = dict(max_history_len=len(N), max_interruptions=len(ks), max_points=N[-1])
     return out
 
@@ -218,14 +245,17 @@ def _strategy(kind):
             a = [0.0] * dim
             b = [draw(st.sampled_from([1.0, 1.0, 0.5])) for _ in range(dim)]
             c = dict(kind=kind, dim=dim, a=a, b=b, fseed=draw(st.integers(0, 10 ** 6)),
-                     function=draw(st.sampled_from(["cornerpeak", "productpeak", "oszillatory", "gaussian", "c0"])),
+                     function=draw(st.sampled_from(["cornerpeak", "productpeak", "oszillatory", "gaussian", "c0", "discontinuous", "discontinuous"])),
                      modes=draw(st.lists(st.sampled_from(["direct", "saved", "both"]), min_size=1, max_size=4)),
                      all_points=(tier == "thorough"),
                      tol_sel=[draw(st.sampled_from([0, 1, 1])), draw(st.integers(0, 40))],
                      legs=draw(st.lists(st.sampled_from(["max", "max", "tol"]), min_size=1, max_size=3)))
             if kind == "dw":
                 c.update(lmin=1, lmax=2, version=draw(st.sampled_from([6, 6, 2, 3, 7, 8])), rebalancing=draw(st.booleans()),
-                         boundary=draw(st.booleans()), maxev=draw(st.integers(30, 250 if dim == 2 else 200)))
+                         boundary=draw(st.booleans()), maxev=draw(st.integers(30, 250 if dim == 2 else 200)),
+                         estimator=draw(st.sampled_from(["library", "library", "target"])), bg=draw(st.sampled_from([0.0, 0.5, 1.5])))
+                if c["estimator"] == "target":
+                    c["maxev"] = draw(st.integers(30, 120))     # one interval per step: keep the history short
             else:
                 c.update(lmin=1, lmax=2, version=draw(st.sampled_from([0, 0, 1, 2])), nref=draw(st.integers(0, 2)),
                          maxev=draw(st.integers(60, 900)))
